@@ -235,7 +235,7 @@ def cases(draw, name):
     nops = draw(st.integers(2, 8))
     ops = []
     for _ in range(nops):
-        kind = draw(st.sampled_from(["reseed", "draw", "draw", "seeded", "seeded", "seeded", "unseeded"]))
+        kind = draw(st.sampled_from(["seeded", "draw", "unseeded", "seeded", "draw", "seeded", "reseed"]))
         if kind == "reseed":
             ops.append(["reseed", draw(st.integers(0, 2 ** 32 - 1))])
         elif kind == "draw":
@@ -380,7 +380,7 @@ def cases_mixed(draw):
     nops = draw(st.integers(3, 9))
     ops = []
     for _ in range(nops):
-        kind = draw(st.sampled_from(["reseed", "draw", "draw", "seeded", "seeded", "seeded", "unseeded", "unseeded"]))
+        kind = draw(st.sampled_from(["seeded", "draw", "unseeded", "seeded", "draw", "seeded", "unseeded", "reseed"]))
         if kind == "reseed":
             ops.append(["reseed", draw(st.integers(0, 2 ** 32 - 1))])
         elif kind == "draw":
